@@ -2,3 +2,4 @@ pub mod refhash;
 pub mod util;
 pub mod fam_hash;
 pub mod fam_hll;
+pub mod fam_theta;
